@@ -120,7 +120,9 @@ class Gen:
         if fail == "raise_before":
             stmts.append(["raise", self.r.randint(1, 3)])
             return stmts
-        if self.flip("nest"):
+        # a nested call; functions that fail later get one more often (a successful output nested in a
+        # failed one is a legitimate, easily forgotten shape)
+        if self.flip("nest") or (fail in ("raise_after", "nocreate", "obj") and self.r.random() < 0.6):
             s, x = self.call(level, vars_)
             stmts += s
             if x:
@@ -224,6 +226,13 @@ class Gen:
                 history.append(["clean", self.r.choice([None, "n", "n", "other"])])
         if history[-1][0] != "build":
             history.append(["build", dict(vers), ok_root])
+        tail = self.r.random()
+        if tail < 0.35:
+            # reuse the whole cache once more, look at the directories, then clean
+            probe = [["ask", self.var(), "is_dir", p[:-1]] for p in self.outputs if len(p) > 1][:3]
+            history.append(["build", dict(vers), ok_root[:-1] + probe + ok_root[-1:]])
+            if self.r.random() < 0.7:
+                history.append(["clean", None])
         return {"cache": self.cache, "name": "n", "funcs": funcs, "history": history}
 
     def mutation(self):
